@@ -41,9 +41,10 @@ theorem C02_deb_parse_twin_toks (ts : List Deb.Tok) :
     (Deb.Work.parseTokensC ts).1 = Deb.parseTokens ts :=
   Deb.Work.parseTokensC_fst ts
 
-/-- on *any* token list (also one the lexer never produces) the rounds of all ten loops of the
-    parser together — root loop, `skip_ws_and_newlines` outer and inner, paragraph loop, comment loop,
-    the `loop` of `parse_entry`, its value loop, the three `skip_ws` calls — are at most
+/-- on *any* token list (also one the lexer never produces) the rounds of all eight `while` / `loop`
+    constructs of the parser together — root loop (230), `skip_ws_and_newlines` outer (262) and inner
+    (267), paragraph loop (221), comment loop (139), the `loop` of `parse_entry` (190), its value loop
+    (191), `skip_ws` (257, at its three call sites) — are at most
     tokens + 2.  Every round bumps a token that no other round bumps, except: the one round of the
     `loop` of `parse_entry` (or of the inner blank-line loop) that meets the end of the input, and —
     paid by the key and the colon, bumped outside any loop — the root round and the paragraph round
